@@ -715,4 +715,162 @@ theorem validateInput_ok_iff (files : Files) (I out : Dict) :
     have hacc := (top_accepts_iff (fileOracle files) _ _ I).2 ⟨⟨_, hL, hla⟩, ⟨_, hR, hra⟩, hkeys⟩
     simp only [topSchema, hacc, if_true, ht, hout]
 
+
+/-! ### 4. The merge with the documented defaults -/
+
+def dI : Dict := [("left", .obj dL), ("right", .obj dR)]
+
+theorem merge_top (g : Bool) (kvs : Dict) :
+    updateConf g inputSchemas.defaults [("input", .obj kvs)] =
+      (updateConf g dI kvs).map (fun I => [("input", JVal.obj I)]) := by
+  rw [generated_input_schemas.2.2.2.2.2.2.2.2, Merge.updateConf_cons]
+  simp only [Dict.lookup, if_true, Merge.updateVal_obj_obj, dI]
+  cases updateConf g [("left", .obj dL), ("right", .obj dR)] kvs with
+  | error e => simp [Except.map]
+  | ok I => simp [Except.map, Dict.setKey, Merge.updateConf_nil]
+
+/-- `check_input_section` on `{"input": kvs}` = merge `kvs` into the two default sides, validate -/
+theorem checkInputSection_input (files : Files) (fl : MachineFlags) (kvs : Dict) (out : Dict) :
+    checkInputSection files fl inputSchemas [("input", .obj kvs)] = .ok out ↔
+      ∃ I, updateConf fl.strictMerge dI kvs = .ok I ∧
+        validateInput files inputSchemas [("input", .obj I)] = .ok out := by
+  rw [checkInputSection_eq, merge_top]
+  cases updateConf fl.strictMerge dI kvs with
+  | error e => simp [Except.map]
+  | ok I => simp [Except.map]
+
+theorem formOk_img {files : Files} {L R : Dict} (h : formOk files L R = true) :
+    ∃ iml imr, imgOf files L = some iml ∧ imgOf files R = some imr := by
+  unfold formOk at h
+  cases himl : imgOf files L with
+  | none => simp [himl] at h
+  | some iml =>
+    cases himr : imgOf files R with
+    | none => simp [himl, himr] at h
+    | some imr => exact ⟨iml, imr, rfl, rfl⟩
+
+theorem imgOf_dL (files : Files) : imgOf files dL = none := by simp [imgOf, dL, Dict.lookup]
+theorem imgOf_dR (files : Files) : imgOf files dR = none := by simp [imgOf, dR, Dict.lookup]
+
+/-- a dictionary with exactly the keys `left`, `right` -/
+theorem two_keys (I : Dict) (a b : JVal) (hk : Dict.keys I = ["left", "right"])
+    (ha : Dict.lookup I "left" = some a) (hb : Dict.lookup I "right" = some b) :
+    I = [("left", a), ("right", b)] := by
+  match I, hk with
+  | [(k1, v1), (k2, v2)], hk =>
+    simp only [Dict.keys, List.map_cons, List.map_nil, List.cons.injEq, and_true] at hk
+    obtain ⟨rfl, rfl⟩ := hk
+    simp [Dict.lookup] at ha hb
+    rw [ha, hb]
+
+/-- **`check_input_section` returns normally iff** the user's `input` consists of a `left` and a
+    `right` dictionary and nothing else, each merges into its documented defaults, and the two
+    completed sides have a documented form; the result is `{"input": {"left": …, "right": …}}` with
+    the two completed sides -/
+theorem checkInputSection_ok_iff (files : Files) (fl : MachineFlags) (kvs out : Dict)
+    (hnd : (Dict.keys kvs).Nodup) :
+    checkInputSection files fl inputSchemas [("input", .obj kvs)] = .ok out ↔
+      ∃ L R L' R', Dict.lookup kvs "left" = some (.obj L) ∧ Dict.lookup kvs "right" = some (.obj R) ∧
+        (∀ kv ∈ kvs, kv.1 = "left" ∨ kv.1 = "right") ∧
+        updateConf fl.strictMerge dL L = .ok L' ∧ updateConf fl.strictMerge dR R = .ok R' ∧
+        formOk files L' R' = true ∧
+        out = [("input", .obj [("left", .obj L'), ("right", .obj R')])] := by
+  rw [checkInputSection_input]
+  constructor
+  · intro ⟨I, hI, hv⟩
+    obtain ⟨hout, L', R', hIl, hIr, hIk, hform⟩ := (validateInput_ok_iff files I out).1 hv
+    obtain ⟨hkeys, hnone, hsome⟩ := Merge.updateConf_inv fl.strictMerge kvs dI I hnd hI
+    obtain ⟨iml, imr, himl, himr⟩ := formOk_img hform
+    -- the two sides come from the user
+    have side : ∀ (k : String) (d S' : Dict), Dict.lookup dI k = some (.obj d) → imgOf files d = none →
+        Dict.lookup I k = some (.obj S') → (∃ im, imgOf files S' = some im) →
+        ∃ S, Dict.lookup kvs k = some (.obj S) ∧ updateConf fl.strictMerge d S = .ok S' := by
+      intro k d S' hd hdi hIk' him
+      cases hk : Dict.lookup kvs k with
+      | none =>
+        rw [hnone k hk, hd] at hIk'
+        simp only [Option.some.injEq, JVal.obj.injEq] at hIk'
+        subst hIk'
+        obtain ⟨im, him⟩ := him
+        rw [hdi] at him; cases him
+      | some v =>
+        obtain ⟨v', hv', hl'⟩ := hsome k v hk
+        rw [hIk'] at hl'
+        simp only [Option.some.injEq] at hl'
+        subst hl'
+        rw [hd] at hv'
+        cases hvo : v.isObj
+        · rw [Merge.updateVal_leaf _ _ v hvo] at hv'
+          simp only [Except.ok.injEq] at hv'
+          have := Merge.rewriteLeaf_isObj v
+          rw [hv', hvo] at this; simp [JVal.isObj] at this
+        · cases v <;> simp [JVal.isObj] at hvo
+          rename_i S
+          rw [Merge.updateVal_obj_obj] at hv'
+          cases hu : updateConf fl.strictMerge d S with
+          | error e => simp [hu, Except.map] at hv'
+          | ok S'' =>
+            simp only [hu, Except.map, Except.ok.injEq, JVal.obj.injEq] at hv'
+            subst hv'
+            exact ⟨S, rfl, hu⟩
+    obtain ⟨L, hL, hLm⟩ := side "left" dL L' (by simp [dI, Dict.lookup]) (imgOf_dL files) hIl ⟨iml, himl⟩
+    obtain ⟨R, hR, hRm⟩ := side "right" dR R' (by simp [dI, Dict.lookup]) (imgOf_dR files) hIr ⟨imr, himr⟩
+    have hkk : ∀ kv ∈ kvs, kv.1 = "left" ∨ kv.1 = "right" := by
+      intro kv hkv
+      have hin : kv.1 ∈ Dict.keys I := by
+        rw [hkeys]
+        by_cases hd : kv.1 ∈ Dict.keys dI
+        · exact List.mem_append_left _ hd
+        · apply List.mem_append_right
+          rw [List.mem_filter]
+          exact ⟨List.mem_map_of_mem (f := (·.1)) hkv, by simpa using hd⟩
+      obtain ⟨kv', hkv', he⟩ := List.mem_map.1 hin
+      rw [← he]
+      exact hIk kv' hkv'
+    have hIkeys : Dict.keys I = ["left", "right"] := by
+      rw [hkeys]
+      have : (Dict.keys kvs).filter (fun k => !(Dict.keys dI).contains k) = [] := by
+        rw [List.filter_eq_nil_iff]
+        intro k hk
+        obtain ⟨kv, hkv, he⟩ := List.mem_map.1 hk
+        rcases hkk kv hkv with h | h <;> simp [← he, h, dI, Dict.keys]
+      rw [this]; rfl
+    refine ⟨L, R, L', R', hL, hR, hkk, hLm, hRm, hform, ?_⟩
+    rw [hout, two_keys I _ _ hIkeys hIl hIr]
+  · intro ⟨L, R, L', R', hL, hR, hkk, hLm, hRm, hform, hout⟩
+    have hitems : ∀ k v, Dict.lookup kvs k = some v →
+        ∃ v', updateVal fl.strictMerge (Dict.lookup dI k) v = .ok v' := by
+      intro k v hk
+      rcases hkk (k, v) (Merge.mem_of_lookup kvs k v hk) with h | h
+      · simp only at h; subst h
+        rw [hL] at hk; cases hk
+        exact ⟨.obj L', by simp [dI, Dict.lookup, Merge.updateVal_obj_obj, hLm, Except.map]⟩
+      · simp only at h; subst h
+        rw [hR] at hk; cases hk
+        exact ⟨.obj R', by simp [dI, Dict.lookup, Merge.updateVal_obj_obj, hRm, Except.map]⟩
+    obtain ⟨I, hI⟩ := Merge.updateConf_intro fl.strictMerge kvs dI hnd hitems
+    obtain ⟨hkeys, hnone, hsome⟩ := Merge.updateConf_inv fl.strictMerge kvs dI I hnd hI
+    have hIl : Dict.lookup I "left" = some (.obj L') := by
+      obtain ⟨v', hv', hl'⟩ := hsome "left" _ hL
+      simp [dI, Dict.lookup, Merge.updateVal_obj_obj, hLm, Except.map] at hv'
+      rw [hl', ← hv']
+    have hIr : Dict.lookup I "right" = some (.obj R') := by
+      obtain ⟨v', hv', hl'⟩ := hsome "right" _ hR
+      simp [dI, Dict.lookup, Merge.updateVal_obj_obj, hRm, Except.map] at hv'
+      rw [hl', ← hv']
+    have hIkeys : Dict.keys I = ["left", "right"] := by
+      rw [hkeys]
+      have : (Dict.keys kvs).filter (fun k => !(Dict.keys dI).contains k) = [] := by
+        rw [List.filter_eq_nil_iff]
+        intro k hk
+        obtain ⟨kv, hkv, he⟩ := List.mem_map.1 hk
+        rcases hkk kv hkv with h | h <;> simp [← he, h, dI, Dict.keys]
+      rw [this]; rfl
+    have hIeq := two_keys I _ _ hIkeys hIl hIr
+    refine ⟨I, hI, (validateInput_ok_iff files I out).2 ⟨by rw [hout, hIeq], L', R', hIl, hIr, ?_, hform⟩⟩
+    intro kv hkv
+    rw [hIeq] at hkv
+    simp only [List.mem_cons, List.mem_nil_iff, or_false] at hkv
+    rcases hkv with h | h <;> simp [h]
+
 end Pandora.C17W
